@@ -5,7 +5,7 @@
   (plain integer arithmetic); the main theorem only translates flag bits into those variables.
 -/
 import Chrono.Proofs.FormatL
-namespace Chrono.Proofs.IsoL
+namespace Chrono.Proofs.FormatIsoL
 open Chrono Chrono.M Chrono.M.Format Chrono.Spec Chrono.Spec.Strftime Chrono.Extracted Chrono.Proofs.FormatL
 
 
@@ -193,4 +193,4 @@ theorem numeric_iso (y : Int) (o : Nat) (hy : MIN_YEAR ≤ y ∧ y ≤ MAX_YEAR)
   · simp only [format_numeric, renderNumeric, numericValue, numericWidth, h1, W.ofRes, h3]
     rw [write_two_ok _ hw.1 hw.2]
 
-end Chrono.Proofs.IsoL
+end Chrono.Proofs.FormatIsoL
